@@ -14,6 +14,26 @@ func elems(input, n int) []int {
 
 var caps = []int{0, 1, 2, 5, 16}
 
+// genCap draws a channel capacity: mostly the small ones where blocking
+// behaviour differs, every value up to 9 now and then, rarely a big one.
+func genCap(r *driver.Rand) int {
+	switch r.Intn(8) {
+	case 0, 1, 2, 3:
+		return driver.Pick(r, 0, 0, 1, 2)
+	case 4, 5, 6:
+		return r.Intn(10)
+	}
+	return driver.Pick(r, 16, 32, 64, 100)
+}
+
+// genPar draws a worker count.
+func genPar(r *driver.Rand) int {
+	if r.Chance(1, 8) {
+		return driver.Pick(r, 12, 16, 17, 32)
+	}
+	return 1 + r.Intn(9)
+}
+
 func genLen(r *driver.Rand, thorough bool) int {
 	// rare long inputs: sizes around powers of two, where chunking or
 	// buffering mistakes live
